@@ -17,7 +17,10 @@ LEVEL_TEXT = (
     "4 (thorough) nodes cross-checks order independence. With the def-use rule that a node's score depends only on "
     "(node, key, seed) this is the published highest-random-weight rule, whose minimal-disruption property follows "
     "(HRW: removing a node changes the argmax only for keys whose argmax it was; adding one only where it becomes the "
-    "argmax). Purity, set-like rotation updates and canonical node names are structure rules. Spread over servers and "
+    "argmax). Purity and canonical node names are structure rules; that the rotation is a *set* is decided on "
+    "histories (R4): __init__ / add_node / remove_node interpreted with exact collections under every sequence of calls "
+    "over four node names until no new hasher state appears - what get_node walks over is exactly the nodes added and "
+    "not removed, whatever bookkeeping the hasher keeps. Spread over servers and "
     "equivalence of address spellings for all strings are not decided."
 )
 TRUSTED = ["CPython ast", "pmcsa/paths.py", "ordering-domain evaluation in pmcsa/rules_C11.py", "scores are non-negative (C14.R1)", "node names are str"]
